@@ -270,11 +270,15 @@ def close(a, b, rtol=1e-5, atol=1e-8):
         if a and a[0] == "arr" and b and b[0] == "arr":
             if a[:4] == b[:4]:
                 return True
-            if a[1:3] != b[1:3] or len(a) < 6 or len(b) < 6:
+            # numba unifies float32/float64 differently from NumPy's promotion: a result may be float32 in
+            # one mode and float64 in the other (single-precision sources only); same shape, values to
+            # single-precision rounding
+            both_float = a[1].startswith("float") and b[1].startswith("float")
+            if a[2] != b[2] or (a[1] != b[1] and not both_float) or len(a) < 6 or len(b) < 6:
                 return False
             x = np.array([float.fromhex(v) for v in a[5]])
             y = np.array([float.fromhex(v) for v in b[5]])
-            if a[1] != "float64":  # single precision results
+            if a[1] != "float64" or b[1] != "float64":  # single precision results
                 rtol, atol = max(rtol, 1e-4), max(atol, 1e-6)
             return bool(np.allclose(x, y, rtol=rtol, atol=atol, equal_nan=True))
         if a and a[0] == "float" and b and b[0] == "float":
@@ -417,12 +421,16 @@ def mesh_source(m, variant="plain", rng=None, name=None):
                 faces=[list(f) for f in m.faces], variant=variant)
     if variant == "lon360":
         spec["lon"] = [(x + 360.0) if x < 0 else x for x in spec["lon"]]
-    if variant in ("edges", "edges+coords"):
+    if variant in ("edges", "edges+coords", "edges-incomplete", "edges-incomplete+coords"):
         es = sorted({tuple(sorted((f[i], f[(i + 1) % len(f)]))) for f in m.faces for i in range(len(f))})
         order = list(range(len(es)))
         (rng or __import__("random").Random(1)).shuffle(order)
         flip = [(rng.random() < 0.5) if rng else (i % 2 == 0) for i in range(len(es))]
         spec["edge_node"] = [list(es[i][::-1] if fl else es[i]) for i, fl in zip(order, flip)]
+        if variant.startswith("edges-incomplete"):
+            # an INCONSISTENT source: the supplied table does not list every edge of the faces
+            spec["edge_node"] = spec["edge_node"][: max(1, len(es) - 2)]
+            spec["incomplete"] = True
     if variant == "xyz":
         spec["xyz"] = m.xyz.tolist()
     return spec
@@ -486,7 +494,7 @@ def open_source(ux, spec):
     if "edge_node" in spec:
         en = np.asarray(spec["edge_node"], dtype=np.int64)
         kw["edge_node_connectivity"] = en
-        if spec.get("variant") == "edges+coords":
+        if spec.get("variant") in ("edges+coords", "edges-incomplete+coords"):
             xyz = np.stack([np.cos(np.radians(lat)) * np.cos(np.radians(lon)), np.cos(np.radians(lat)) * np.sin(np.radians(lon)),
                             np.sin(np.radians(lat))], axis=1)
             c = xyz[en].mean(axis=1)
@@ -1159,7 +1167,10 @@ class Judge:
                 detail = "fresh-raises:" + ref[1]
             else:
                 detail = "value-differs"
-            if jit_off:
+            if mspecs[mhist[-1][0]].get("incomplete"):
+                # the observed grid comes from an inconsistent source (supplied edge table incomplete)
+                sig = "C08/history/source:incomplete-supplied-edge-table/differs-from-fresh"
+            elif jit_off:
                 sig = f"C08/jit-off/{cls}/{detail}"
             elif op[0] in EXPORT_OPS:
                 sig = f"C08/export/{cls}/{detail}"
@@ -1185,7 +1196,9 @@ class Judge:
             evs.append("0 " + common.enc_ints(sg))
         for gi, op in hist:
             evs.append("1 %d %s" % (gi, " ".join(map(str, model_op(op)))))
-        out = common.Tok(ctx.driver.ask("C08.model", 0, len(evs), " ".join(evs)))
+        # a source whose supplied edge table is incomplete is a source CLASS of the model (flag bit 8)
+        mflags = 256 if any(sp.get("incomplete") for sp in specs) else 0
+        out = common.Tok(ctx.driver.ask("C08.model", mflags, len(evs), " ".join(evs)))
         pred = []
         for _ in evs:
             eq, clean, ng = out.int(), out.int(), out.int()
@@ -1198,7 +1211,7 @@ class Judge:
                 # not compared from here on
                 ctx.hit("model-domain-not-compared-after-raise")
                 return
-            if not eq or not clean:
+            if (not eq or not clean) and not mflags:
                 ctx.mismatch("C08/model-internal", dict(hist=hist[: i + 1]), None, dict(eq=eq, clean=clean))
                 return
             for k, (g_state, (present, chunked)) in enumerate(zip(st["state"], gs)):
@@ -1248,6 +1261,8 @@ def build_sources(rng, thorough=False):
         file_source("mpas"),
         mesh_source(meshes.cube_sphere(2).drop_faces(random.Random(2), 0.4), "plain"),
         cartesian_source(meshes.antiprism(4, lat=30.0, lon0=100.0)),
+        mesh_source(meshes.prism(5), "edges-incomplete", rng=random.Random(8)),
+        mesh_source(meshes.prism(3), "edges-incomplete+coords", rng=random.Random(9)),
     ]
     # seeded members
     k = rng.choice([3, 4, 5, 6, 7])
@@ -1410,6 +1425,10 @@ def random_history(rng, srcs, OPS, maxlen=8):
     specs = [rng.choice(srcs) for _ in range(k)]
     if k >= 2 and rng.random() < 0.3:
         specs[1] = specs[0]  # two copies of the same source: same-shaped tables leaking are silent
+    if any(sp.get("incomplete") for sp in specs):
+        # the model takes "supplied edge table incomplete" as a class of the whole world: no grid with a
+        # COMPLETE supplied table next to it
+        specs = [sp if (sp.get("incomplete") or "edge_node" not in sp) else srcs[0] for sp in specs]
     L = rng.randint(2, maxlen)
     hist = []
     for _ in range(L):
@@ -1447,7 +1466,7 @@ def run(ctx):
     ctx.assumptions = [
         "values are compared through digests of dtype/shape/bytes (arrays), query batteries (trees), coordinates (geometry)",
         "that each public method reads only what the Lean table says is validated by comparing Grid._ds with the model's store after every step, not proved",
-        "JIT on/off equality and dask semantics are exercised, not proved; JIT-off observations may differ from JIT-on references by float rounding (1e-5 relative / 1e-8 absolute; arccos near 1 amplifies last-bit differences)",
+        "JIT on/off equality and dask semantics are exercised, not proved; JIT-off observations may differ from JIT-on references by float rounding (1e-5 relative / 1e-8 absolute; arccos near 1 amplifies last-bit differences; for single-precision sources the result dtype may be float32 in one mode and float64 in the other — numba's type unification vs NumPy's promotion)",
         "isel / subset / get_dual / copy results are observed through a digest of the returned grid's fundamental and a few derived variables",
         "inventory-type attributes (dims, sizes, coordinates, connectivity, descriptors) and to_xarray('ugrid') are judged by the superset rule of the property's export clause",
     ]
